@@ -81,10 +81,43 @@ def oracle_axes(ck, m, J, col, row, x, tol=0.0, named=None):
     return None
 
 
+def oracle_reuse(ck, L, m, shapes):
+    """covering case (independent of the seed): ONE DWTForward / DWTInverse instance built from a 4-tuple of distinct column
+    and row filters of EQUAL length, called on inputs with different channel counts and sizes in turn; every result must
+    be the per-axis PyWavelets transform of its own input"""
+    import torch
+    from pytorch_wavelets import DWTForward, DWTInverse
+    rng = ck.rng
+    col = tuple(gen.int_filter(rng, L) for _ in range(4)); row = tuple(gen.int_filter(rng, L) for _ in range(4))
+    wc = O.wavelet(*col); wr = O.wavelet(*row)
+    desc = 'one DWTForward/DWTInverse instance (4-tuple, L=%d both axes, mode=%s) called on %s in turn' % (L, gen.MODE_NAME[m], [tuple(s_) for s_ in shapes])
+    replay = {'oracle': 'reuse', 'L': L, 'm': m, 'shapes': [list(s_) for s_ in shapes], 'note': 'filters are drawn from the check PRNG: re-run with the same VERIF_SEED'}
+    fwd = DWTForward(J=2, wave=tuple(np.array(f, dtype=np.float64) for f in (col[0], col[1], row[0], row[1])), mode=gen.MODE_NAME[m])
+    inv = DWTInverse(wave=tuple(np.array(f, dtype=np.float64) for f in (col[2], col[3], row[2], row[3])), mode=gen.MODE_NAME[m])
+    for sh in shapes:
+        x = gen.int_tensor(rng, sh)
+        with torch.no_grad():
+            yl, yh = fwd(torch.tensor(x, dtype=torch.float64))
+        rl, rh = O.wavedec2(x, wc, wr, m, 2)
+        ok, why = same([yl.numpy()] + [h.numpy() for h in yh], [rl] + rh, 0.0)
+        if not ok:
+            ck.fail(desc + ': forward on %s differs from pywt with (column wavelet, row wavelet): %s' % (tuple(sh), why), replay); return 'diff'
+        pl = gen.int_tensor(rng, rl.shape); ph = [gen.int_tensor(rng, h.shape) for h in rh]
+        with torch.no_grad():
+            y = inv((torch.tensor(pl, dtype=torch.float64), [torch.tensor(h, dtype=torch.float64) for h in ph]))
+        ok, why = same([y.numpy()], [O.waverec2(pl, ph, wc, wr, m)], 0.0)
+        if not ok:
+            ck.fail(desc + ': inverse on the pyramid of %s differs from pywt: %s' % (tuple(sh), why), replay); return 'diff'
+    ck.oracle_ok(('reuse', L, m, tuple(map(tuple, shapes))), group='instance-reuse', sample={'what': desc})
+    return None
+
+
 def oracle(ck, extended):
     rng = ck.rng
     import pywt
     q = ck.tier == 'quick'
+    for (L, m) in [(4, 0), (6, 1), (2, 6)]:
+        rt.guard(ck, oracle_reuse, ck, L, m, [(1, 4, 12, 14), (1, 2, 12, 14), (2, 1, 9, 16), (1, 3, 12, 14)])
     for it in range((80 if q else 800) * (3 if extended else 1)):
         Lc = 2 * rng.randint(1, 5); Lr = 2 * rng.randint(1, 5)
         m = rng.choice(gen.MODES5); J = rng.randint(1, 3)
@@ -114,6 +147,18 @@ def replay(ck, path):
     if not f:
         print('replay file names no failing input: %s' % d.get('broken_obligations'))
         return 1
+    if f.get('oracle') == 'reuse':
+        import os
+        print('replay: instance-reuse case, filters drawn from the check PRNG: re-running the covering cases with the recorded seed')
+        os.environ['VERIF_SEED'] = str(d.get('seed', 0))
+        ck2 = rt.Check(PROP, d.get('tier', 'quick'))
+        for (L, m) in [(4, 0), (6, 1), (2, 6)]:
+            rt.guard(ck2, oracle_reuse, ck2, L, m, [(1, 4, 12, 14), (1, 2, 12, 14), (2, 1, 9, 16), (1, 3, 12, 14)])
+        for fl in ck2.failures:
+            print('REPLAY-FAILS: ' + fl['desc'])
+        if not ck2.failures:
+            print('REPLAY-PASSES')
+        return 1 if ck2.failures else 0
     oracle_axes(ck, f['m'], f['J'], tuple(arr_from(a) for a in f['col']), tuple(arr_from(a) for a in f['row']), arr_from(f['x']), f['tol'], f['named'])
     for fl in ck.failures:
         print('REPLAY-FAILS: ' + fl['desc'])
